@@ -684,6 +684,8 @@ impl LockFreePool {
                     let ptr = memory.offset_ptr(current_head as usize) as *const u32;
                     *ptr
                 };
+                #[cfg(feature = "verif-hooks")]
+                crate::verif_hooks::sched_point(crate::verif_hooks::site::FL_ALLOC_AFTER_NEXT_READ);
                 
                 // Try to update head atomically
                 match head.head.compare_exchange_weak(
@@ -734,6 +736,8 @@ impl LockFreePool {
                     let ptr = memory.offset_ptr(offset.to_usize()) as *mut u32;
                     *ptr = current_head;
                 }
+                #[cfg(feature = "verif-hooks")]
+                crate::verif_hooks::sched_point(crate::verif_hooks::site::FL_FREE_AFTER_LINK);
                 
                 // Try to update head atomically
                 match head.head.compare_exchange_weak(
@@ -777,6 +781,32 @@ impl LockFreePool {
         huge_stats.0 += size;
         huge_stats.1 += 1;
         Ok(())
+    }
+
+    /// Verification hook: walk every lock-free fast-bin free list (quiescent use only).
+    #[cfg(feature = "verif-hooks")]
+    pub fn verif_walk_free_lists(&self) -> std::result::Result<Vec<(usize, Vec<u32>)>, String> {
+        let memory = self.memory.lock().unwrap_or_else(|e| e.into_inner());
+        let mut out = Vec::new();
+        for (i, head) in self.free_lists.iter().enumerate() {
+            let mut off = head.head.load(Ordering::Acquire);
+            let mut offs = Vec::new();
+            let mut seen = std::collections::HashSet::new();
+            while off != u32::MAX {
+                if off as usize + 4 > memory.capacity {
+                    return Err(format!("bin {} link {} outside arena", i, off));
+                }
+                if !seen.insert(off) {
+                    return Err(format!("bin {} cycle at offset {}", i, off));
+                }
+                offs.push(off);
+                off = unsafe { *(memory.offset_ptr(off as usize) as *const u32) };
+            }
+            if !offs.is_empty() {
+                out.push(((i + 1) * self.config.alignment, offs));
+            }
+        }
+        Ok(out)
     }
 
     pub fn stats(&self) -> PoolStats {
